@@ -103,6 +103,22 @@ pub fn tail_trick_wire(apex: &[u8]) -> Option<Vec<u8>> {
     Some(v)
 }
 
+/// The name with bit 5 flipped in some label octets that are NOT ASCII letters ('_' <-> DEL, '@' <-> '`', '*' <-> LF,
+/// '-' <-> CR, digits <-> control characters): a different name, although a case fold by `| 0x20` would equate them.
+pub fn bit5_variant(r: &mut StdRng, wire: &[u8]) -> Vec<u8> {
+    let mut v = wire.to_vec();
+    let mut i = 0;
+    let mut changed = false;
+    while i < v.len() && v[i] != 0 {
+        let l = v[i] as usize;
+        for k in i + 1..=i + l {
+            if !v[k].is_ascii_alphabetic() && (r.gen_bool(0.5) || !changed) { v[k] ^= 0x20; changed = true; }
+        }
+        i += l + 1;
+    }
+    v
+}
+
 pub fn name_of_wire(wire: &[u8]) -> Box<Name> {
     Name::try_from_uncompressed_all(wire).expect("harness produced an invalid name")
 }
@@ -124,7 +140,8 @@ pub fn tname(t: Transport) -> &'static str {
 
 /// Calls the real server; a panic is data ("out":"panic").
 pub fn handle<C: Catalog>(server: &Server<C>, req: &[u8], t: Transport, src: IpAddr) -> Value {
-    let mut buf = vec![0u8; 65535];
+    // not zeroed: a response must not depend on what the buffer held before (the I/O providers reuse theirs)
+    let mut buf = vec![0xFFu8; 65535];
     let t0 = unix_now();
     let r = catch_unwind(AssertUnwindSafe(|| server.handle_message(req, ReceivedInfo::new(src, t), &mut buf)));
     let t1 = unix_now();
